@@ -23,7 +23,10 @@ Er7 == R("er", TRUE, 7, << >>)
 Wn == R("wn", TRUE, 0, << >>)
 AlphaExh == {Np, Ae, Ck3, Ck2, Sv, Unk, Er1}
 AlphaFaithful == {Np, Ck3, Sv}
-AlphaDeep == {Np, Ae, Ae2, Ck3, Ck2, Ck0, Ck5, Sv, SvC, Pt, PtC, Unk, UnkC, Er1, Er7, Wn}
+AlphaDeep == {Np, Ck3, Sv, Er1}
+AlphaWide == {Np, Ae, Ae2, Ck3, Ck2, Ck0, Ck5, Sv, SvC, Pt, PtC, Unk, UnkC, Er1, Er7, Wn}
 AlphaGen == {Ae, Ck3, Sv, Pt, Unk, Er1, Wn}
-AlphaGenDeep == {Np, Ae, Ae2, Ck3, Ck2, Ck0, Sv, PtC, Unk, UnkC, Er7, Wn}
+AlphaGenDeep == {Ae, Ck3, Sv, Unk, Er1}
+AlphaGenDeep4 == {Ck3, Ck2, Pt}
+AlphaGenWide == {Np, Ae, Ae2, Ck3, Ck2, Ck0, Ck5, Sv, SvC, Pt, PtC, Unk, UnkC, Er1, Er7, Wn}
 =============================================================================
